@@ -171,6 +171,12 @@ class Codec:
 
         # length to skip if current message is malformed
         skip_length = valid_idx + next_msg
+        if not has_next_msg:
+            # keep possible beginning of the next message header at the buffer end
+            for keep in range(5, 0, -1):
+                if rawmsg.endswith(b"8=FIX."[:keep]):
+                    skip_length -= keep
+                    break
 
         # message ends by CheckSum(10) field
         is_complete = False
